@@ -50,7 +50,7 @@ import random
 
 PID = "C15"
 LEVEL = "proof"
-LEAN_MODULES = ["AsynqModel.Theorems.C15"]
+LEAN_MODULES = ["AsynqModel.Theorems.C15", "AsynqModel.Theorems.C15b"]
 # statements with content (induction over all programs); hypotheses in DESIGN.md section 5 C15 / MANIFEST
 HEADLINE_THEOREMS = [
     "AsynqModel.Asyncio.C15_equiv_partial",
@@ -66,6 +66,9 @@ HEADLINE_THEOREMS = [
     "AsynqModel.Asyncio.C15_shape",
     "AsynqModel.Asyncio.C15_spec_respects_correspondence",
     "AsynqModel.Asyncio.C15_spec_holds_partial",
+    # Theorems/C15b.lean: an accepted list of observations (any origin) has all conventions present and EVERY observation
+    # in it passed specObs against the first one (no clause of specObs is named "ok": specObs_ne_ok)
+    "AsynqModel.Asyncio.C15_spec_every_obs",
     "AsynqModel.Asyncio.C15_specP_holds_partial",
     "AsynqModel.Asyncio.C15_case_spec_holds_partial",
 ]
